@@ -201,8 +201,17 @@ type SimSub struct {
 	// stay what it was.
 	Args map[string]interface{}
 
+	// Companion adds a second root field to the subscription request whose
+	// resolver refuses (unknown subscriber): the request as a whole fails and
+	// must not register anything.
+	Companion bool
+
 	env   SubEnv
 	sends int
+	// kept is the last value handed to Send (a queueing subscriber keeps it
+	// beyond the call) and what it looked like then.
+	kept      interface{}
+	keptCanon string
 }
 
 // ErrSend is returned by failing deliveries.
@@ -222,6 +231,7 @@ func (s *SimSub) Match(eventID string) bool {
 
 // Send implements ggql.Subscriber.
 func (s *SimSub) Send(value interface{}) error {
+	s.checkKept()
 	fail := s.countSend()
 	res := "ok"
 	if fail {
@@ -230,12 +240,29 @@ func (s *SimSub) Send(value interface{}) error {
 	s.env.Event("Send", strconv.Itoa(s.ID)+"|"+res+"|"+CanonLite(value))
 	// the delivery takes time: the end of the call is an event of its own, so
 	// that a second call into the same subscriber before it shows as an overlap
+	s.kept, s.keptCanon = value, CanonLite(value)
 	s.env.Event("SendEnd", strconv.Itoa(s.ID))
 	if fail {
 		return ErrSend
 	}
 	return nil
 }
+
+// checkKept reports when the value of the previous delivery, which the
+// subscriber still holds, no longer is what was delivered.
+//
+//go:norace
+func (s *SimSub) checkKept() {
+	if s.kept != nil {
+		if now := CanonLite(s.kept); now != s.keptCanon {
+			s.env.Event("ValueChanged", strconv.Itoa(s.ID)+"|delivered "+s.keptCanon+", now "+now)
+			s.keptCanon = now
+		}
+	}
+}
+
+// CheckKept is checkKept for the harness (after an operation).
+func (s *SimSub) CheckKept() { s.checkKept() }
 
 // countSend keeps the per-subscriber delivery counter. It is harness state that
 // several publishers touch; execution is serialised by the scheduler, and the
@@ -382,6 +409,13 @@ func (w *SubWorld) Subscribe(sid int) string {
 		body = "... on Subscription { " + body + " }"
 	case 3:
 		body = "... @include(if: true) { ... { " + body + " } }"
+	}
+	if s.Companion {
+		if w.UnionEvents {
+			body += " refused: watchAny(topic: \"zz\", sid: 99) { __typename }"
+		} else {
+			body += " refused: watch(topic: \"zz\", sid: 99) { id }"
+		}
 	}
 	req := op + " { " + body + " }"
 	if frag != "" {
